@@ -221,8 +221,11 @@ class BinarySearchTreeAdapted(Sampling):
         ):
             if self._is_axis[bucket_position]:
                 # find the position of the state
-                state_ith_pos = np.searchsorted(
-                    self._precomputed_cum_p_for_axes[bucket_position], prob
+                cum_p_axis = self._precomputed_cum_p_for_axes[bucket_position]
+                # the residual probability can exceed the last cumulative probability of the bucket by a rounding error
+                # (uniform equal to the cumulative probability of the bucket): stay on the last state of the axis
+                state_ith_pos = min(
+                    np.searchsorted(cum_p_axis, prob), len(cum_p_axis) - 1
                 )
                 a_c, b_c = list(zip(*these_bucket_coordinates))
                 state = tuple(
